@@ -23,11 +23,13 @@ QUICK_TIMEOUT_MS = int(os.environ.get('VERIF_Z3_TIMEOUT_MS', '20000'))
 class LoopAnn(object):
     """annotation of one loop (keyed by ordinal in source order inside the function under contract)"""
 
-    def __init__(self, invariant, index='k', modifies=(), variant=None, locals_=None, havoc_skip=(), unfold=None):
+    def __init__(self, invariant, index='k', modifies=(), variant=None, locals_=None, havoc_skip=(), unfold=None,
+                 extra_havoc=()):
         self.invariant, self.index, self.modifies, self.variant = invariant, index, tuple(modifies), variant
         self.unfold = unfold        # fn(vm, env, k) -> ground instances of spec-function definitions at k
         self.locals_ = locals_ or {}
         self.havoc_skip = set(havoc_skip)
+        self.extra_havoc = tuple(extra_havoc)
         self.ordinal = None
 
     def _assigned_names(self, node):
@@ -42,7 +44,7 @@ class LoopAnn(object):
         return names
 
     def havoc(self, vm, node, env):
-        for name in sorted(self._assigned_names(node)):
+        for name in sorted(self._assigned_names(node) | set(self.extra_havoc)):
             if name in self.havoc_skip:
                 continue
             kind = self.locals_.get(name)
